@@ -1398,8 +1398,10 @@ class Interp:
             return V("list", elem=add_deps(join(els), t.deps) if els else None, deps=alld)
         if n in ("zip", "zip_longest") and args and all(a.k in ("list", "dict") for a in args):
             els = [self.elem_of(a) for a in args]
-            # the pairing depends on the lengths of all the inputs
-            return V("list", elem=V("list", elem=join(els), items=els, deps=alld), deps=alld)
+            # the pairing depends on the lengths of all the inputs — on what decides their structure, not on what their
+            # elements are worth (each element carries that itself)
+            struct = F().union(*[a.deps for a in args])
+            return V("list", elem=V("list", elem=join(els), items=els, deps=struct), deps=struct)
         if n == "enumerate" and args and args[0].k in ("list", "dict"):
             el = self.elem_of(args[0])
             return V("list", elem=V("list", elem=el, items=[raw(args[0].deps, deg={}, carrier="bare"), el]), deps=alld)
